@@ -277,6 +277,8 @@ def run(ctx):
                # a far-expiring metric superseded by an earlier-expiring one (direct and over pubsub)
                refute(ctx, "MonitorMC_goal_farpast.cfg", "NeverFarThenPastAlert", "goal:far_then_past"),
                refute(ctx, "MonitorMC_goal_farshort.cfg", "NeverFarThenShortAlert", "goal:far_then_short:publish")]
+    # membership shrinks and grows back to back around a member's live metric: every read must follow at once
+    scripts.append(refute(ctx, "MonitorMC_goal_shrinkgrow.cfg", "NeverShrinkThenGrow", "goal:peerset:shrink_then_grow"))
     # an undecodable message (4 kinds) on the metrics topic between two valid published metrics of one peer
     for k in ("Random", "Truncated", "Empty", "WrongType"):
         scripts.append(refute(ctx, "MonitorMC_goal_garbage_%s.cfg" % k.lower(), "NeverFreshAfter" + k,
@@ -301,9 +303,17 @@ def run(ctx):
     ctx.log("generated %d scripts (%d steps)" % (len(scripts), sum(len(s["steps"]) for s in scripts)))
     # R
     trace = os.path.join(ctx.work, "c09_trace.ndjson")
-    ctx.go_test("c09_mon", run="TestReplay$", infile=inp, env={"VERIF_TRACE": trace}, timeout=3000)
+    dr = ctx.go_test("c09_mon", run="TestReplay$", infile=inp, env={"VERIF_TRACE": trace}, timeout=3000)
     # V
     validate(ctx, trace, len(scripts))
+    unresp = dr.extra.get("scripts_monitor_unresponsive", 0)
+    if unresp:
+        # the executed prefixes were judged; without a breach there is no verdict on the rest
+        msg = "monitor did not answer within 20s in %d scripts (%s); their prefixes were judged" % (
+            unresp, dr.extra.get("monitor_unresponsive_in"))
+        ctx.log(msg)
+        if not ctx.violations:
+            raise vcheck.Infra(msg)
     # cadence
     cadence(ctx)
 
